@@ -107,7 +107,21 @@ func genSvcs(r *wire.Rng, nss []string, hosts []string, n int, aliases bool) []s
 		if s.k8s {
 			k8sHost[s.hostname] = true
 		}
-		s.ctime = r.Intn(6) // ties on creation time are broken by the unique name
+		// ties on creation time are broken by the unique name; services sharing a hostname get
+		// distinct creation times (pickBestVisibleNamespace ranges over a Go map and keeps the
+		// first of two equally old services)
+		for {
+			s.ctime = r.Intn(10)
+			clash := false
+			for _, o := range out {
+				if o.hostname == s.hostname && o.ctime == s.ctime {
+					clash = true
+				}
+			}
+			if !clash {
+				break
+			}
+		}
 		s.name = fmt.Sprintf("n%02d", r.Intn(50)*100+i)
 		np := 1 + r.Intn(3)
 		used := map[int]bool{}
@@ -137,4 +151,184 @@ func genSvcs(r *wire.Rng, nss []string, hosts []string, n int, aliases bool) []s
 		out = append(out, s)
 	}
 	return out
+}
+
+// ---------------------------------------------------------------- scope stream
+
+var vsHostPool = []string{"a.com", "b.com", "x.a.com", "*.a.com", "*.com", "*", "svc.ns1.svc.cluster.local", "*.wild.com", "w.wild.com", "*.svc.cluster.local"}
+
+func genDest(r *wire.Rng, hosts []string) destSpec {
+	h := wire.Pick(r, hosts)
+	if r.Chance(1, 10) {
+		h = "nowhere.example.com"
+	}
+	return destSpec{h, wire.Pick(r, []int{0, 0, 0, 80, 81, 8080, 7777})}
+}
+
+func genVS(r *wire.Rng, nss, hosts []string, i int) vsSpec {
+	v := vsSpec{name: fmt.Sprintf("v%d", i), ns: wire.Pick(r, nss), ctime: r.Intn(5)}
+	for k := 1 + r.Intn(2); k > 0; k-- {
+		if r.Chance(1, 2) {
+			v.hosts = append(v.hosts, wire.Pick(r, hosts))
+		} else {
+			v.hosts = append(v.hosts, wire.Pick(r, vsHostPool))
+		}
+	}
+	v.exportTo = genExport(r, nss, v.ns, r.Chance(1, 4))
+	switch r.Intn(10) {
+	case 0:
+		v.gateways = []string{"mesh"}
+	case 1:
+		v.gateways = []string{"gw1"}
+	case 2:
+		v.gateways = []string{"gw1", "mesh"}
+	}
+	v.gwSem = r.Chance(1, 6)
+	for k := 1 + r.Intn(2); k > 0; k-- {
+		h := httpSpec{}
+		for j := r.Intn(5) - 2; j > 0; j-- {
+			h.srcNs = append(h.srcNs, wire.Pick(r, append([]string{""}, nss...)))
+		}
+		for j := 1 + r.Intn(2); j > 0; j-- {
+			h.dests = append(h.dests, genDest(r, hosts))
+		}
+		v.http = append(v.http, h)
+	}
+	if r.Chance(1, 4) {
+		v.tcp = append(v.tcp, genDest(r, hosts))
+	}
+	return v
+}
+
+var drHostPool = []string{"a.com", "*.a.com", "*.com", "*", "*.svc.cluster.local", "*.ns1.svc.cluster.local"}
+
+func genDR(r *wire.Rng, nss, hosts []string, i int) drSpec {
+	d := drSpec{name: fmt.Sprintf("d%d", i), ns: wire.Pick(r, nss), ctime: r.Intn(5)}
+	if r.Chance(2, 3) {
+		d.host = wire.Pick(r, hosts)
+	} else {
+		d.host = wire.Pick(r, drHostPool)
+	}
+	d.exportTo = genExport(r, nss, d.ns, false)
+	d.selector = r.Chance(1, 7)
+	return d
+}
+
+// genEgressHost: every host form of the Sidecar API plus illegal ones.
+func genEgressHost(r *wire.Rng, nss, hosts []string, exactOnly bool) string {
+	ns := wire.Pick(r, nss)
+	if r.Chance(1, 3) {
+		ns = "."
+	}
+	h := wire.Pick(r, hosts)
+	if exactOnly {
+		for isWildcard(h) {
+			h = wire.Pick(r, hosts)
+		}
+		switch r.Intn(8) {
+		case 0:
+			return "~" + ns + "/" + h
+		case 1:
+			return "~/" + wire.Pick(r, []string{h, "*.a.com", "*.com"})
+		default:
+			return ns + "/" + h
+		}
+	}
+	switch r.Intn(20) {
+	case 0, 1, 2, 3:
+		return ns + "/" + h
+	case 4, 5:
+		return "*/" + h
+	case 6, 7:
+		return ns + "/*"
+	case 8:
+		return "*/*"
+	case 9:
+		return ns + "/" + wire.Pick(r, []string{"*.a.com", "*.com", "*.svc.cluster.local", "*.wild.com"})
+	case 10:
+		return "*/" + wire.Pick(r, []string{"*.a.com", "*.com", "*.svc.cluster.local"})
+	case 11, 12:
+		return "~" + ns + "/" + wire.Pick(r, []string{h, "*.a.com", "*", "*.com"})
+	case 13:
+		return "~/" + wire.Pick(r, []string{h, "*.a.com", "*.com"})
+	case 14:
+		return "~*/" + h
+	case 15:
+		return wire.Pick(r, []string{h, "a/b/c", "", "/", "ns1/", "/a.com", "~", "~/", "./"})
+	default:
+		return ns + "/" + h
+	}
+}
+
+func isWildcard(h string) bool { return len(h) > 0 && h[0] == '*' }
+
+func genSidecar(r *wire.Rng, nss, hosts []string, i int, root string) sidecarSpec {
+	s := sidecarSpec{name: fmt.Sprintf("sc%d", i), ns: wire.Pick(r, nss), ctime: r.Intn(5)}
+	if r.Chance(1, 5) {
+		s.ns = root
+	}
+	if r.Chance(1, 4) {
+		s.selector = map[string]string{"app": wire.Pick(r, []string{"a", "b"})}
+		if r.Chance(1, 6) {
+			s.selector = map[string]string{}
+		}
+	}
+	for k := r.Intn(4); k > 0; k-- {
+		l := listenerSpec{}
+		switch r.Intn(8) {
+		case 0, 1:
+			l.port, l.proto = wire.Pick(r, []int{80, 81, 8080}), "HTTP"
+		case 2:
+			l.port, l.proto = wire.Pick(r, []int{80, 8080}), "HTTP_PROXY"
+		}
+		exact := r.Chance(2, 5)
+		for j := 1 + r.Intn(4); j > 0; j-- {
+			l.hosts = append(l.hosts, genEgressHost(r, nss, hosts, exact))
+		}
+		s.egress = append(s.egress, l)
+	}
+	return s
+}
+
+func genScope(seed uint64, ncases int, out string) {
+	o := wire.Create(out)
+	defer o.Close()
+	r := wire.NewRng(seed ^ 0x5c09e)
+	for c := 0; c < ncases; c++ {
+		nss := nsPool[:2+r.Intn(3)]
+		hosts := hostPool[:3+r.Intn(len(hostPool)-2)]
+		u, p, e := !r.Chance(1, 5), !r.Chance(1, 4), !r.Chance(1, 6)
+		o.Line("case", fmt.Sprint(c), "scope", "U="+wire.B(u), "P="+wire.B(p), "E="+wire.B(e))
+		m := genMesh(r, nss)
+		o.Line(m.line()...)
+		svcs := genSvcs(r, nss, hosts, 2+r.Intn(11), true)
+		for _, s := range svcs {
+			o.Line(s.line()...)
+		}
+		for i, n := 0, r.Intn(5); i < n; i++ {
+			o.Line(genVS(r, nss, hosts, i).line()...)
+		}
+		for i, n := 0, r.Intn(5); i < n; i++ {
+			o.Line(genDR(r, nss, hosts, i).line()...)
+		}
+		for i, n := 0, r.Intn(4); i < n; i++ {
+			o.Line(genSidecar(r, nss, hosts, i, m.root).line()...)
+		}
+		o.Line("build")
+		// a gateway asked before any sidecar of its namespace gets DefaultSidecarScopeForGateway,
+		// one asked afterwards may get the cached default sidecar scope
+		if r.Chance(1, 2) {
+			o.Line("gw", wire.Enc(wire.Pick(r, nss)))
+		}
+		for _, ns := range append(append([]string{}, nss...), "other") {
+			lbl := "-"
+			if r.Chance(1, 3) {
+				lbl = "app=" + wire.Pick(r, []string{"a", "b"})
+			}
+			o.Line("scope", wire.Enc(ns), lbl)
+		}
+		if r.Chance(1, 2) {
+			o.Line("gw", wire.Enc(wire.Pick(r, nss)))
+		}
+	}
 }
